@@ -1,7 +1,229 @@
-(* EntryReader.v — entry points of this area; returns None for codes it does not own *)
-From RBQL Require Import Base Sx.
+(* EntryReader.v — entry points of the reader area (codes 200-299) over the universal value sx.
+   200 Python reader run            201 Python reader rows (line_mode, _get_all_rows)
+   202 spec records_of_text         203 spec split_lines            204 spec rows_of_lines on a text    205 rows_of_lines on lines
+   210 JS reader over decoded chunks  211 JS reader over byte chunks (stream)   212 JS reader bulk
+   213 lines_js (decoded chunks)      214 lines_js_bulk
+   220 UTF-8 streaming decode   221 UTF-8 whole decode   222 UTF-8 encode   223 decode_each_chunk (pre-fix behaviour)
+   Field splitting is not part of this area: the split function is either the local [lite_split] (simple policy on a
+   delimiter / monocolumn) or a finite table (line -> fields, warning) supplied with the case, falling back to lite_split. *)
+From RBQL Require Import Base Sx Lines Utf8 Reader ReaderJs.
+
+Definition enc_of_sx (x : sx) : option enc :=
+  match x with
+  | A 0%N => Some EncNone
+  | A 1%N => Some EncUtf8
+  | A 2%N => Some EncLatin1
+  | _ => None
+  end.
+
+(* cfg = L [rfc; comment option; has_header; enc; modifier option] *)
+Definition cfg_of_sx (x : sx) : option cfg :=
+  match x with
+  | L [r; cm; h; e; m] =>
+      match bool_of_sx r, option_of_sx str_of_sx cm, bool_of_sx h, enc_of_sx e, option_of_sx bool_of_sx m with
+      | Some r', Some cm', Some h', Some e', Some m' =>
+          Some {| c_rfc := r'; c_comment := cm'; c_header := h'; c_enc := e'; c_modifier := m' |}
+      | _, _, _, _, _ => None
+      end
+  | _ => None
+  end.
+
+Definition table_split (tbl : list (str * (list str * bool))) (fallback : str -> list str * bool) (line : str) : list str * bool :=
+  match List.find (fun e => str_eqb (fst e) line) tbl with
+  | Some e => snd e
+  | None => fallback line
+  end.
+
+Definition tbl_entry_of_sx (x : sx) : option (str * (list str * bool)) :=
+  match x with
+  | L [l; fs; w] =>
+      match str_of_sx l, list_of_sx str_of_sx fs, bool_of_sx w with
+      | Some l', Some fs', Some w' => Some (l', (fs', w'))
+      | _, _, _ => None
+      end
+  | _ => None
+  end.
+
+(* split spec = L [delim option; table] *)
+Definition split_of_sx (x : sx) : option (str -> list str * bool) :=
+  match x with
+  | L [d; t] =>
+      match option_of_sx str_of_sx d, list_of_sx tbl_entry_of_sx t with
+      | Some d', Some t' => Some (table_split t' (lite_split d'))
+      | _, _ => None
+      end
+  | _ => None
+  end.
+
+Definition sx_of_record (r : list str) : sx := sx_of_list sx_of_str r.
+
+Definition sx_of_warnings (w : warnings) : sx :=
+  L [sx_of_bool (w_bom w);
+     sx_of_option sx_of_nat (w_defective w);
+     sx_of_option (fun q => match q with (r1, n1, r2, n2) => L [sx_of_nat r1; sx_of_nat n1; sx_of_nat r2; sx_of_nat n2] end) (w_fields w)].
+
+Definition sx_of_result (r : result) : sx :=
+  match r with
+  | ROk recs h w nl nr => L [A 0; sx_of_list sx_of_record recs; sx_of_option sx_of_record h; sx_of_warnings w; sx_of_nat nl; sx_of_nat nr]
+  | RErr nr nl => L [A 1; sx_of_nat nr; sx_of_nat nl]
+  end.
+
+Definition sx_of_jresult (r : jresult) : sx :=
+  match r with
+  | JOk recs h w nl nr => L [A 0; sx_of_list sx_of_record recs; sx_of_option sx_of_record h; sx_of_warnings w; sx_of_nat nl; sx_of_nat nr]
+  | JErr (JDefect nr nl) => L [A 1; sx_of_nat nr; sx_of_nat nl]
+  | JErr JUtf8 => L [A 2]
+  | JStuck => L [A 3]
+  end.
+
+Definition sx_of_rows (r : list str * (nat * bool)) : sx :=
+  L [sx_of_list sx_of_str (fst r); sx_of_nat (fst (snd r)); sx_of_bool (snd (snd r))].
+
+Definition strs_of_sx := list_of_sx str_of_sx.
+
+Definition sched_of_sx (x : sx) : option (list (str * bool)) :=
+  list_of_sx (fun e => match e with
+                       | L [d; b] => match str_of_sx d, bool_of_sx b with Some d', Some b' => Some (d', b') | _, _ => None end
+                       | _ => None end) x.
+
+(* 200: L [cfg; split; cs; pieces] *)
+Definition ep_py_run (x : sx) : sx :=
+  match x with
+  | L [c; sp; cs; ps] =>
+      match cfg_of_sx c, split_of_sx sp, nat_of_sx cs, strs_of_sx ps with
+      | Some c', Some sp', Some cs', Some ps' => sx_of_result (run_py sp' c' cs' ps')
+      | _, _, _, _ => ERR
+      end
+  | _ => ERR
+  end.
+
+(* 201: L [cfg; cs; pieces] *)
+Definition ep_py_rows (x : sx) : sx :=
+  match x with
+  | L [c; cs; ps] =>
+      match cfg_of_sx c, nat_of_sx cs, strs_of_sx ps with
+      | Some c', Some cs', Some ps' => sx_of_rows (rows_py c' cs' ps')
+      | _, _, _ => ERR
+      end
+  | _ => ERR
+  end.
+
+(* 202: L [cfg; split; text] *)
+Definition ep_spec_records (x : sx) : sx :=
+  match x with
+  | L [c; sp; t] =>
+      match cfg_of_sx c, split_of_sx sp, str_of_sx t with
+      | Some c', Some sp', Some t' => sx_of_result (records_of_text sp' c' t')
+      | _, _, _ => ERR
+      end
+  | _ => ERR
+  end.
+
+(* 203: text *)
+Definition ep_split_lines (x : sx) : sx :=
+  match str_of_sx x with Some t => sx_of_list sx_of_str (split_lines t) | None => ERR end.
+
+(* 204: L [cfg; text] *)
+Definition ep_spec_rows (x : sx) : sx :=
+  match x with
+  | L [c; t] =>
+      match cfg_of_sx c, str_of_sx t with
+      | Some c', Some t' => sx_of_rows (rows_of_lines c' (split_lines t'))
+      | _, _ => ERR
+      end
+  | _ => ERR
+  end.
+
+(* 205: L [cfg; L [line ...]] : the logical rows of an explicit list of physical lines *)
+Definition ep_spec_rows_of_lines (x : sx) : sx :=
+  match x with
+  | L [c; ls] =>
+      match cfg_of_sx c, strs_of_sx ls with
+      | Some c', Some ls' => sx_of_rows (rows_of_lines c' ls')
+      | _, _ => ERR
+      end
+  | _ => ERR
+  end.
+
+(* 210: L [cfg; split; b0; L [L [decoded chunk; run continuations after it] ...]] *)
+Definition ep_js_decoded (x : sx) : sx :=
+  match x with
+  | L [c; sp; b0; ch] =>
+      match cfg_of_sx c, split_of_sx sp, bool_of_sx b0, sched_of_sx ch with
+      | Some c', Some sp', Some b0', Some ch' => sx_of_jresult (run_js_decoded sp' c' b0' ch')
+      | _, _, _, _ => ERR
+      end
+  | _ => ERR
+  end.
+
+(* 211: L [cfg; split; b0; L [L [byte chunk; flag] ...]] *)
+Definition ep_js_stream (x : sx) : sx :=
+  match x with
+  | L [c; sp; b0; ch] =>
+      match cfg_of_sx c, split_of_sx sp, bool_of_sx b0, sched_of_sx ch with
+      | Some c', Some sp', Some b0', Some ch' => sx_of_jresult (run_js_stream sp' c' b0' ch')
+      | _, _, _, _ => ERR
+      end
+  | _ => ERR
+  end.
+
+(* 212: L [cfg; split; bytes] *)
+Definition ep_js_bulk (x : sx) : sx :=
+  match x with
+  | L [c; sp; b] =>
+      match cfg_of_sx c, split_of_sx sp, str_of_sx b with
+      | Some c', Some sp', Some b' => sx_of_jresult (run_js_bulk sp' c' b')
+      | _, _, _ => ERR
+      end
+  | _ => ERR
+  end.
+
+(* 213: L [decoded chunk ...] *)
+Definition ep_lines_js (x : sx) : sx :=
+  match strs_of_sx x with Some ch => sx_of_list sx_of_str (lines_js ch) | None => ERR end.
+
+(* 214: text *)
+Definition ep_lines_js_bulk (x : sx) : sx :=
+  match str_of_sx x with Some t => sx_of_list sx_of_str (lines_js_bulk t) | None => ERR end.
+
+(* 220: L [byte chunk ...] -> option (list str) *)
+Definition ep_utf8_streaming (x : sx) : sx :=
+  match strs_of_sx x with
+  | Some ch => sx_of_option (sx_of_list sx_of_str) (decode_streaming ch)
+  | None => ERR
+  end.
+
+(* 221: bytes -> option str *)
+Definition ep_utf8_whole (x : sx) : sx :=
+  match str_of_sx x with Some b => sx_of_option sx_of_str (decode_whole b) | None => ERR end.
+
+(* 222: str -> bytes *)
+Definition ep_utf8_encode (x : sx) : sx :=
+  match str_of_sx x with Some s => sx_of_str (utf8_encode s) | None => ERR end.
+
+(* 223: L [byte chunk ...] -> option (list str), each chunk decoded on its own *)
+Definition ep_utf8_each (x : sx) : sx :=
+  match strs_of_sx x with
+  | Some ch => sx_of_option (sx_of_list sx_of_str) (decode_each_chunk ch)
+  | None => ERR
+  end.
 
 Definition dispatch_reader (code : N) (x : sx) : option sx :=
   match code with
+  | 200%N => Some (ep_py_run x)
+  | 201%N => Some (ep_py_rows x)
+  | 202%N => Some (ep_spec_records x)
+  | 203%N => Some (ep_split_lines x)
+  | 204%N => Some (ep_spec_rows x)
+  | 205%N => Some (ep_spec_rows_of_lines x)
+  | 210%N => Some (ep_js_decoded x)
+  | 211%N => Some (ep_js_stream x)
+  | 212%N => Some (ep_js_bulk x)
+  | 213%N => Some (ep_lines_js x)
+  | 214%N => Some (ep_lines_js_bulk x)
+  | 220%N => Some (ep_utf8_streaming x)
+  | 221%N => Some (ep_utf8_whole x)
+  | 222%N => Some (ep_utf8_encode x)
+  | 223%N => Some (ep_utf8_each x)
   | _ => None
   end.
